@@ -30,17 +30,28 @@ class Project:
 
     def clean(self, rel):
         if rel not in self._clean:
-            self._clean[rel] = X.eval_pp(X.strip_comments(self.raw(rel)))
+            txt = X.eval_pp(X.strip_comments(self.raw(rel)))
+            if os.path.basename(rel) in ('PolygonArea.hpp', 'PolygonArea.cpp'):
+                # R22: the instantiation under contract is PolygonAreaT<Geodesic>: the template parameter is read as that class
+                txt = re.sub(r'\bGeodType\b', 'Geodesic', txt)
+            self._clean[rel] = txt
         return self._clean[rel]
 
     def classinfo(self, cls, real='double'):
         key = (cls, real)
         if key not in self._classes:
             hdr = 'include/GeographicLib/%s.hpp' % HEADER_OF.get(cls, cls)
-            self._classes[key] = X.parse_class(self.clean(hdr), cls, real)
+            ci = X.parse_class(self.clean(hdr), cls, real)
+            # R22 template instantiation: the instantiation under contract is stated here (PolygonAreaT<Geodesic>, Accumulator<real>)
+            for nm, (typ, arr, mut) in list(ci.members.items()):
+                if typ in TEMPLATE_INSTANCE:
+                    ci.members[nm] = (TEMPLATE_INSTANCE[typ], arr, mut)
+            self._classes[key] = ci
         return self._classes[key]
 
 
+CLASS_TEMPLATE_T = {'Accumulator'}   # class templates over `typename T`, verified for T = real
+TEMPLATE_INSTANCE = {'GeodType': 'Geodesic', 'Accumulator<>': 'Accumulator'}
 HEADER_OF = {'GeographicErr': 'Constants', 'PolygonAreaT': 'PolygonArea', 'DAuxLatitude': 'DAuxLatitude', 'coeff': 'SphericalEngine'}
 SOURCE_OF.update({'PolygonAreaT': 'PolygonArea'}) if False else None
 SOURCE_OF = {'PolygonAreaT': 'PolygonArea', 'coeff': 'SphericalEngine'}
@@ -78,6 +89,7 @@ class Contract:
         self.captures_before = []
         self.captures_end = []
         self.alt_harness = {}
+        self.prototype = None
         self.uses = []        # other contract files whose ghost declarations this one refers to
         self.markers = []     # (line, id)
         if not os.path.exists(path):
@@ -122,6 +134,11 @@ class Contract:
                     cur = ('harness-post', no + 1, [])
                     self.harness_post = cur
                     self.markers.append((no, 'harness-post'))
+                elif kind == 'prototype':
+                    # hand-written C prototype of a function that exists only as a contract (an instantiation / operator the extractor does not
+                    # produce): used with Job(extra_replace=[...])
+                    cur = ('prototype', no + 1, [])
+                    self.prototype = cur
                 elif kind == 'uses':
                     self.uses.extend(rest.split())
                     cur = None
@@ -338,7 +355,8 @@ def funcinfo(proj, qualname, cname=None, real='double', select=None, may_throw=N
                     is_method=not mi.is_static, is_const=mi.is_const, cls=cls)
     fi.qualname = qualname
     fi.inline_body = mi.inline_body
-    fi.template_T = getattr(mi, 'template_T', False)
+    fi.init_list = getattr(mi, 'init_list', '')
+    fi.template_T = getattr(mi, 'template_T', False) or cls in CLASS_TEMPLATE_T
     if mi.inline_body is None:
         # contracts name parameters as the DEFINITION does (the header may differ, e.g. UTMUPS::CheckCoords)
         try:
@@ -364,6 +382,24 @@ def funcinfo(proj, qualname, cname=None, real='double', select=None, may_throw=N
     return fi
 
 
+def ctor_init_to_statements(proj, cls, real, init_list, body_txt, report):
+    """R11: the constructor's member-initialiser list becomes assignments, executed in the order the members are DECLARED
+    in the class (the C++ rule), placed on the line of the opening brace"""
+    ci0 = proj.classinfo(cls, real)
+    inits = {}
+    for item in X.split_top(init_list):
+        im = re.match(r'\s*(\w+)\s*\((.*)\)\s*$', item, re.S)
+        if not im:
+            raise ExtractError('constructor initialiser %r not of the form member(expr)' % item.strip())
+        inits[im.group(1)] = ' '.join(im.group(2).split())
+    unknown = [k for k in inits if k not in ci0.members]
+    if unknown:
+        raise ExtractError('constructor initialises %s which are not data members (base class / delegating constructor?)' % unknown)
+    stmts = ' '.join('%s = %s;' % (k, inits[k]) for k in ci0.members if k in inits)
+    report.hit('R11.ctor_init_list', len(inits))
+    return '{ ' + stmts + body_txt[1:]
+
+
 class Extracted:
     pass
 
@@ -378,6 +414,7 @@ def extract_function(proj, fi, functable, real='double', srcrel=None, select=Non
         clean = proj.clean(srcrel)
         body_txt = fi.inline_body
         template_T_def = False
+        inline_init = getattr(fi, 'init_list', '')
         # locate it for line numbers
         cb, off = X.class_body(clean, cls)
         # find the method text within the class body
@@ -385,6 +422,8 @@ def extract_function(proj, fi, functable, real='double', srcrel=None, select=Non
         line_body = clean.count('\n', 0, idx) + 1 if idx >= 0 else 1
         line_first, line_last = line_body, line_body + body_txt.count('\n')
         ret_text = None
+        if inline_init.strip():
+            body_txt = ctor_init_to_statements(proj, cls, real, inline_init, body_txt, report)
     else:
         srcrel = srcrel or source_of(cls)
         clean = proj.clean(srcrel)
@@ -392,21 +431,7 @@ def extract_function(proj, fi, functable, real='double', srcrel=None, select=Non
         body_txt = fd.body
         template_T_def = getattr(fd, 'template_T', False)
         if fd.init_list.strip():
-            # R11: the constructor's member-initialiser list becomes assignments, executed in the order the members are DECLARED
-            # in the class (the C++ rule), placed on the line of the opening brace
-            ci0 = proj.classinfo(cls, real)
-            inits = {}
-            for item in X.split_top(fd.init_list):
-                im = re.match(r'\s*(\w+)\s*\((.*)\)\s*$', item, re.S)
-                if not im:
-                    raise ExtractError('constructor initialiser %r not of the form member(expr)' % item.strip())
-                inits[im.group(1)] = ' '.join(im.group(2).split())
-            unknown = [k for k in inits if k not in ci0.members]
-            if unknown:
-                raise ExtractError('constructor initialises %s which are not data members (base class / delegating constructor?)' % unknown)
-            stmts = ' '.join('%s = %s;' % (k, inits[k]) for k in ci0.members if k in inits)
-            body_txt = '{ ' + stmts + body_txt[1:]
-            report.hit('R11.ctor_init_list', len(inits))
+            body_txt = ctor_init_to_statements(proj, cls, real, fd.init_list, body_txt, report)
         line_body, line_first, line_last = fd.line_body, fd.line_first, fd.line_last
         # parameter NAMES in the definition may differ from the header: use the definition's
         dparams = X.parse_params(fd.params_text, real)
@@ -423,6 +448,7 @@ def extract_function(proj, fi, functable, real='double', srcrel=None, select=Non
         except Exception:
             pass
     tr = X.Translator(cls, real, functable, classinfo, report, template_T=(getattr(fi, 'template_T', False) or template_T_def))
+    tr.site_prefix = fi.cname
     ret = fi.ret_ctype
     b = body_txt
     for pat, rep in (rewrites or ()):
@@ -492,7 +518,19 @@ def extract_function(proj, fi, functable, real='double', srcrel=None, select=Non
         b = splice_captures(b, contract, report)
     parts.append('#line %d "%s"' % (line_body, os.path.join(proj.repo, srcrel)))
     parts.append(b)
-    ex.text = '\n'.join(parts)
+    # wrappers of the call sites of replaced callees (per-site vacuity canaries, see rule_calls)
+    wr = []
+    for k, cfi, rel_line in getattr(tr, 'call_sites', []):
+        wname = '%s__at_%s_%d' % (cfi.cname, fi.cname, k)
+        proto_w = cfi.proto().replace(' %s(' % cfi.cname, ' %s(' % wname, 1)
+        args = (['self'] if cfi.is_method else []) + [p.name for p in cfi.params]
+        call = '%s(%s);' % (cfi.cname, ', '.join(args))
+        canary = '__CPROVER_assert(0, "canary: call of %s at %s:%d returns");' % (cfi.cname, srcrel, line_body + rel_line)
+        if cfi.ret_ctype == 'void':
+            wr.append('static inline %s { %s %s }' % (proto_w, call, canary))
+        else:
+            wr.append('static inline %s { %s r_ = %s %s return r_; }' % (proto_w, cfi.ret_ctype, call, canary))
+    ex.text = '\n'.join(wr + parts)
     ex.body_c = b
     return ex
 
